@@ -29,7 +29,7 @@ def run(ctx):
     corp = harness.corpus_files()
     rng.shuffle(corp)
     texts = [(f, t) for f, t in corp[:ctx.budget(80, 451)] if len(t) < ctx.budget(20000, 10**7)]
-    for doc in harness.gen_documents(rng, ctx.budget(200, 3000), max_depth=4):
+    for doc in harness.gen_documents(rng, ctx.budget(200, 3000), max_depth=4, contract=True):
         texts.append(("generated", docs.render(doc, harness.random_layout(rng))[0]))
     pp = PrettyPrinter()
     printed = []
